@@ -934,84 +934,207 @@ def check_book(run: Run, prog: Program, facts: list[dict[str, Any]] | None = Non
     res = next(iter(reserve))
     deficit_tables: set[str] = set()
     n = 0
-    for r in loops:
-        if r in alloc:
-            continue
-        paths = [(p, writes(p, lambda t, _v: _sub(t, res))) for p, _st in r.paths]
+    # where the covering lives: in loops of the allocation function itself, or in a private helper (static method /
+    # method / module function) the reserve table is handed to -- followed by the argument that carries the table;
+    # a `return` of such a helper ends the covering of the deficit at hand (what it returns is what is left of it)
+    others = [r for r in regs if r not in alloc]
+    sites: list[tuple[FuncInfo, Region, str, Any]] = [(dp, r, res, None) for r in others if r.kind != "top"]
+    sites += _covering_helpers(prog, dp, others, res, None)
+    for cf, r, tab, ctx in sites:
+        paths = [(p, writes(p, lambda t, _v: _sub(t, tab))) for p, _st in r.paths]
         if not any(w for _p, w in paths):
             continue
-        cur: Region | None = r
-        q0: Region | None = None
-        covered = None
-        while cur is not None and covered is None:
-            if cur.kind == "loop" and isinstance(cur.loop, (ast.For, ast.AsyncFor)) and cur.cell_pairs():
-                covered, q0 = cur.cell_pairs()[0][1], cur
-            cur = cur.parent
-        if covered is None:
-            raise AnalysisError(f"{dp.qual}: line {getattr(r.loop, 'lineno', '?')}: the reserve table is changed "
-                                "outside a loop over the deficits")
-        it = q0.loop.iter if q0 is not None else None  # type: ignore[union-attr]
-        if isinstance(it, ast.Call) and isinstance(it.func, ast.Attribute) and isinstance(it.func.value, ast.Name):
-            deficit_tables.add(it.func.value.id)
-        if isinstance(r.loop, ast.While):
+        where = f"loop at line {getattr(r.loop, 'lineno', '?')}" if r.loop is not None else f"{cf.name}()"
+        line = getattr(r.loop, "lineno", 0) if r.loop is not None else getattr(cf.node, "lineno", 0)
+        got = _covered_quantity(cf, r, ctx)
+        if got is None:
+            raise AnalysisError(f"{cf.qual}: {where}: the reserve table is changed outside a loop over the deficits")
+        covered, dtab = got
+        if dtab is not None:
+            deficit_tables.add(dtab)
+        if isinstance(r.loop, ast.While) and r.kind == "loop":
             entered = [tp for tp, o in test_paths(r.loop.test) if o]
-            run.check(bool(entered) and all(nonzero_established(tp, covered) or negative_established(tp, covered)
-                                            for tp in entered), "C02.BOOK", dp.qual,
+            # ... by the loop's own test, or (`while True:` with the test as a guard in the body) by the conditions
+            # of every pass that takes something from the table
+            by_test = bool(entered) and all(nonzero_established(tp, covered) or negative_established(tp, covered)
+                                            for tp in entered)
+            by_guard = all(nonzero_established(p, covered) or negative_established(p, covered)
+                           for p, ws in paths if ws)
+            run.check(by_test or by_guard, "C02.BOOK", dp.qual,
                       f"while {u(r.loop.test)}",
                       f"the covering loop is entered without having established that `{covered}` is a remaining "
                       "(non-zero / negative) deficit: deficits stay uncovered, more than the request stays "
                       "reserved and the top-up takes the difference back from the first group",
-                      node=r.loop, file=dp.file,
+                      node=r.loop, file=cf.file,
                       instance=f"{dp.qual}: deficit covering #{n + 1} runs while a deficit remains")
         ok, bad = True, None
         ta = TermEval(atom_hook=_item_alias)
         norm = _Items(prog)
         within, bad_w, gives_up, bad_g, n_break = True, None, True, None, 0
         for (p, ws), (_p2, st) in zip(paths, r.paths):
-            moved = (ta.ev(norm.visit(copy.deepcopy(p.env[covered]))) - Poly.atom(covered)) if covered in p.env else Poly()
+            # a helper's return (or its end) hands back what is left of the deficit
+            leaves = ctx is not None and (st == "return" or (r.kind == "top" and st == "next"))
+            before = Poly.atom(covered)
+            if leaves and p.ret is not None:
+                after = ta.ev(norm.visit(copy.deepcopy(p.ret)))
+            elif covered in p.env:
+                after = ta.ev(norm.visit(copy.deepcopy(p.env[covered])))
+            else:
+                after = before
+            taken = Poly()
             known = _norm_conds(p, norm)
             for _e, tgt, val in ws:
                 old, new = ta.ev(norm.visit(copy.deepcopy(tgt))), ta.ev(norm.visit(copy.deepcopy(val)))
-                moved = moved + new - old
+                taken = taken + new - old
                 # (e) a donor gives at most what it holds: the entry becomes zero, or changes by an amount
                 #     the path established to be covered by the entry
                 held = new.is_zero() or _covered_by(known, new - old, old)
                 if facts is not None:
                     # (for C01's sign clause) one record per store into the reserve table during deficit covering
-                    facts.append({"function": dp, "loop": r.loop, "table": res, "lineno": _e.lineno, "path": p,
+                    facts.append({"function": cf, "loop": r.loop, "table": tab, "lineno": _e.lineno, "path": p,
                                   "store": f"{u(tgt)} = {u(val)}", "entry": repr(old), "change": repr(new - old),
                                   "ok": held, "compared": _compared_with(known, new - old)})
                 if not held:
                     within, bad_w = False, bad_w or p
-            if not moved.is_zero():
+            moved = after - before + taken
+            # a helper that returns nothing and leaves having taken the whole deficit from the table has covered it
+            whole = leaves and p.ret is None and after == before and taken == before
+            if not moved.is_zero() and not whole:
                 ok, bad = False, bad or p
-            if st == "break":
+            if r.kind == "loop" and (st == "break" or (leaves and not (
+                    after.is_zero() or whole or (after == before and _settled(p, covered))))):
                 n_break += 1
-                if not _nothing_left(p, res):
+                if not _nothing_left(p, tab):
                     gives_up, bad_g = False, bad_g or p
         n += 1
-        run.check(ok, "C02.BOOK", dp.qual, f"loop at line {getattr(r.loop, 'lineno', '?')}: {res} vs {covered}",
+        run.check(ok, "C02.BOOK", dp.qual, f"{where}: {tab} vs {covered}",
                   f"deficit covering: on a path the change of `{covered}` is not the negated change of the "
-                  f"entries of `{res}` (e.g. the entry that is zeroed is not the donor's): reserve is counted "
+                  f"entries of `{tab}` (e.g. the entry that is zeroed is not the donor's): reserve is counted "
                   "twice, more than the request is handed out and the top-up takes the difference back from "
                   "the first group, which ends inside its exclusion zone",
-                  node=at(getattr(r.loop, "lineno", 0)), file=dp.file, path=bad.describe() if bad else None,
+                  node=at(line), file=cf.file, path=bad.describe() if bad else None,
                   instance=f"{dp.qual}: deficit covering #{n} moves reserve from the donor to the deficit")
-        run.check(within, "C02.BOOK", dp.qual, f"loop at line {getattr(r.loop, 'lineno', '?')}: amount taken from {res}",
-                  f"deficit covering: an entry of `{res}` is reduced by an amount that the path has not "
+        run.check(within, "C02.BOOK", dp.qual, f"{where}: amount taken from {tab}",
+                  f"deficit covering: an entry of `{tab}` is reduced by an amount that the path has not "
                   "established to be at most what the entry holds: the donor's reserve becomes negative and the "
-                  "donor ends below its minimum power", node=at(getattr(r.loop, "lineno", 0)), file=dp.file,
+                  "donor ends below its minimum power", node=at(line), file=cf.file,
                   path=bad_w.describe() if bad_w else None,
                   instance=f"{dp.qual}: deficit covering #{n}: a donor gives at most its reserve")
         if n_break:
-            run.check(gives_up, "C02.BOOK", dp.qual, f"loop at line {getattr(r.loop, 'lineno', '?')}: break",
-                      f"deficit covering gives up on a path that has not established that `{res}` is empty or that "
+            run.check(gives_up, "C02.BOOK", dp.qual, f"{where}: break",
+                      f"deficit covering gives up on a path that has not established that `{tab}` is empty or that "
                       "the chosen donor holds nothing: deficits stay uncovered although reserve is available",
-                      node=at(getattr(r.loop, "lineno", 0)), file=dp.file, path=bad_g.describe() if bad_g else None,
+                      node=at(line), file=cf.file, path=bad_g.describe() if bad_g else None,
                       instance=f"{dp.qual}: deficit covering #{n} gives up only when nothing is left to take")
     if n < 1:
         raise AnalysisError(f"{dp.qual}: no deficit covering over `{res}` found")
     _check_res(run, prog, dp, request, res, next(iter(deficit_tables)) if len(deficit_tables) == 1 else None)
+
+
+_HELPERS: list[Any] = [None, {}]      # [program, prepared helper per function node]
+
+
+def _helper_info(prog: Program, fn: FuncInfo, h: Any) -> FuncInfo:
+    """A private helper of `fn`'s class / module prepared like an anchored function (analysis-only copy)."""
+    from ..engine.normalize import inline_helpers
+    from ._c02_util import anchors, splice_blocks
+
+    if _HELPERS[0] is not prog:
+        _HELPERS[:] = [prog, {}]
+    got = _HELPERS[1].get(id(h))
+    if got is None or got[0] is not h:
+        mf = fn.module.functions.get(h.name)
+        raw = FuncInfo(h.name, fn.module, h, None if mf is not None and mf.node is h else fn.cls)
+        keep = set(anchors(prog).values())
+        node = inline_helpers(prog, raw, node=splice_blocks(prog, raw, keep), exclude=keep)
+        got = _HELPERS[1][id(h)] = (h, FuncInfo(raw.name, raw.module, node, raw.cls))
+    return got[1]
+
+
+def _covering_helpers(prog: Program, fn: FuncInfo, regs: list[Region], table: str, ctx: Any,
+                      depth: int = 2) -> list[tuple[FuncInfo, Region, str, Any]]:
+    """Regions of the private helpers the table `table` of `fn` is handed to as an argument:
+    (helper, region, the helper's parameter that is the table, (caller, calling region, bindings, caller's context))."""
+    from ..engine.normalize import _bind, _helper_target
+    from ._c02_util import anchors
+
+    out: list[tuple[FuncInfo, Region, str, Any]] = []
+    if depth <= 0:
+        return out
+    keep = set(anchors(prog).values())
+    seen: set[tuple[int, int, str]] = set()
+    for r in regs:
+        for p, _st in r.paths:
+            for e in p.effects:
+                if e.kind != "call" or not isinstance(e.node, ast.Call):
+                    continue
+                args = list(e.node.args) + [k.value for k in e.node.keywords]
+                if not any(isinstance(a, ast.Name) and a.id == table for a in args):
+                    continue
+                key = (id(r), e.lineno, u(e.node))
+                if key in seen:
+                    continue
+                seen.add(key)
+                h = _helper_target(prog, fn, e.node, {})
+                if h is None or h.name in keep or h.name == fn.name or isinstance(h, ast.AsyncFunctionDef):
+                    continue
+                binds = _bind(h, e.node)
+                if binds is None:
+                    continue
+                mine = [k for k, v in binds.items() if isinstance(v, ast.Name) and v.id == table]
+                if len(mine) != 1:
+                    continue
+                hf = _helper_info(prog, fn, h)
+                hregs = regions(hf.node)
+                hctx = (fn, r, binds, ctx)
+                out.extend((hf, hr, mine[0], hctx) for hr in hregs)
+                out.extend(_covering_helpers(prog, hf, hregs, mine[0], hctx, depth - 1))
+    return out
+
+
+def _covered_quantity(fn: FuncInfo, r: Region, ctx: Any) -> tuple[str, str | None] | None:
+    """(the local of `fn` that holds the deficit being covered in region `r`, the deficit table in terms of the
+    allocation function): the item value of the enclosing loop over a mapping -- in `fn`, or around the call that
+    brought the analysis into `fn`, the value then arriving as a parameter."""
+    def up(name: str | None, c: Any) -> str | None:
+        while c is not None and name is not None:
+            v = c[2].get(name)
+            name = v.id if isinstance(v, ast.Name) else None
+            c = c[3]
+        return name
+
+    cur: Region | None = r
+    while cur is not None:
+        if cur.kind == "loop" and isinstance(cur.loop, (ast.For, ast.AsyncFor)) and cur.cell_pairs():
+            it = cur.loop.iter
+            tab = it.func.value.id if isinstance(it, ast.Call) and isinstance(it.func, ast.Attribute) \
+                and isinstance(it.func.value, ast.Name) else None
+            return cur.cell_pairs()[0][1], up(tab, ctx)
+        cur = cur.parent
+    if ctx is None:
+        return None
+    caller, creg, binds, cctx = ctx
+    got = _covered_quantity(caller, creg, cctx)
+    if got is None:
+        return None
+    mine = [k for k, v in binds.items() if u(v) == got[0]]
+    return (mine[0], got[1]) if len(mine) == 1 else None
+
+
+def _settled(p: Any, operand: str) -> bool:
+    """A condition of the path says that the deficit `operand` is (close to) zero or not negative."""
+    for _k, _ko, atom, _ln, o in p.conds:
+        if isinstance(atom, ast.Call) and zero_test(atom, operand) is True and o:
+            return True
+        if isinstance(atom, ast.Compare) and len(atom.ops) == 1:
+            left, op, right = atom.left, atom.ops[0], atom.comparators[0]
+            if u(left) == operand and is_zero(right) and (
+                    (isinstance(op, (ast.Eq, ast.GtE)) and o) or (isinstance(op, ast.Lt) and not o)):
+                return True
+            if u(right) == operand and is_zero(left) and (
+                    (isinstance(op, (ast.Eq, ast.LtE)) and o) or (isinstance(op, ast.Gt) and not o)):
+                return True
+    return False
 
 
 def _item_alias(e: ast.AST, _te: TermEval) -> Poly | None:
